@@ -32,7 +32,9 @@ P_C07_OwnIdentityOnly == (IsReq /\ last.relayed) =>
                             (O.attributed /\ last.host = O.dest /\ last.claimsElevated = O.elevated)
 P_C07_UnattributedRefused == (IsReq /\ ~O.attributed) => (~last.relayed /\ last.status = 421)
 \* the scenarios only use authorized identities, so an attributed connection's requests are relayed
-P_C07_AttributedServed == (IsReq /\ O.attributed) => last.relayed
+P_C07_AttributedServed == (IsReq /\ O.attributed /\ O.dest # "dead") => last.relayed
+\* (dest "dead": nobody listens at the recorded destination; the request is answered 502 and nothing is relayed)
+P_C07_DeadDestination == (IsReq /\ O.attributed /\ O.dest = "dead") => (~last.relayed /\ last.status = 502)
 Accepted == IF TLCGet("stats").diameter - 1 = Len(Rec) THEN TRUE
             ELSE PrintT(<<"UNMATCHED", TLCGet("stats").diameter, Len(Rec)>>) /\ FALSE
 =============================================================================
